@@ -503,6 +503,14 @@ class VM:
                 return hi - a if lo == 0 else -a - 1
             return self.unop(rv[1], a)
         if k == 'cast':
+            o = rv[1]
+            if o[0] in ('copy', 'move') and len(o[1].proj) >= 2 and all(q[0] == 'field' and q[1] == 0 for q in o[1].proj[-2:]) \
+                    and 'Unique<' in str(o[1].proj[-2][2]) and 'NonNull<' in str(o[1].proj[-1][2]):
+                # (box.0: Unique<T>).0: NonNull<T> of a Box that is modelled by its bare contents (into_boxed_slice, Box::new of a value): the pointer is the box's own place
+                base = Place(o[1].local, o[1].proj[:-2]); bv = self.read_place(m, fid, base)
+                if not (isinstance(bv, Struct) and bv.ty == 'Box') and not isinstance(bv, (Ref, SliceRef, Opaque)):
+                    cell, path = self.resolve(m, fid, base)
+                    return SliceRef(cell, tuple(path), 0, len(bv.items)) if isinstance(bv, Seq) and '[' in str(o[1].proj[-1][2]) else Ref(cell, tuple(path))
             v = self.operand(m, fid, rv[1], fn)
             return self.cast(m, v, rv[2], rv[3], self.op_type(fn, rv[1]))
         if k == 'ref':
@@ -824,7 +832,7 @@ class VM:
                     if not is_sym(c):
                         tgt = st.c
                         for val, t in st.b:
-                            if val == c: tgt = t; break
+                            if val == c or (isinstance(c, int) and c < 0 and val in (c + 2**8, c + 2**16, c + 2**32, c + 2**64, c + 2**128)): tgt = t; break   # switchInt prints signed values as their unsigned bit pattern
                         if tgt is None: raise VMError('switch without target')
                         bb, i = tgt, 0; continue
                     # symbolic
